@@ -107,10 +107,13 @@ var skipMethods = map[string]bool{
 	"admin_sleep": true, "admin_sleepBlocks": true, "admin_exportChain": true, "admin_importChain": true,
 	"debug_cpuProfile": true, "debug_blockProfile": true, "debug_mutexProfile": true, "debug_goTrace": true,
 	"debug_startCPUProfile": true, "debug_stopCPUProfile": true, "debug_startGoTrace": true, "debug_stopGoTrace": true,
-	// getWork starts the miner as a side effect (same as miner_start): with the
+	// getWork / getBlockTemplate start the miner as a side effect (same as
+	// miner_start; with mining on, worker.pending() copies a state that the sealing
+	// result loop commits concurrently - "concurrent map iteration and map write" -
+	// a node defect outside the 20 properties that killed the harness once): with the
 	// harness's fake PoW that mines blocks back to back, empties the seeded pool
 	// and burns the CPU
-	"aqua_getWork": true, "eth_getWork": true,
+	"aqua_getWork": true, "eth_getWork": true, "testing_getBlockTemplate": true,
 	"miner_start": true, "admin_shutdown": true, "testing_shutdown": true, "admin_stop": true,
 	// these dereference the CLI's glog handler, which only cmd setup installs
 	// (internal/debug.Setup); an embedded node has none, so calling them crashes
